@@ -9,7 +9,7 @@ import itertools
 import numpy as np
 from common import *
 
-IMPORTS = "From QE Require Import Base.Pivot C04.Model C04.Proofs C04.ProofsMM2 Gen.Consts."
+IMPORTS = "From QE Require Import Base.Pivot C04.Model C04.Proofs C04.ProofsMM2 C04.Sep Gen.Consts."
 PREAMBLE = """
 Definition opts : @PivOptions Q := {| fea_tol := lp_FEA_TOL; tol_piv := lp_TOL_PIV; tol_ratio_diff := lp_TOL_RATIO_DIFF |}.
 Definition optsF : @PivOptions float := {| fea_tol := lp_FEA_TOL_f; tol_piv := lp_TOL_PIV_f; tol_ratio_diff := lp_TOL_RATIO_DIFF_f |}.
@@ -446,6 +446,16 @@ def run(ctx):
         i = free[j]
         ctx.mismatch("C04.Model.linprog_simplex (exact Q instance) vs optimize.linprog_simplex: status and optimal value",
                      lp_input(lps[i]), dict(zip(("x", "lambd", "fun", "success", "status", "num_iter"), outs[i])), lp_model(i, "opts"))
+    # (2b) sep_ok (C04/Sep.v) evaluated inside Coq per case: where it holds, theorem C04_tolerance_irrelevant makes the
+    #      tolerance-0 theorems (status0_certificate, status_iff) statements about the source-tolerance run
+    nosep = ctx.coq_check("linprog_sep_ok", IMPORTS, "LPQ",
+                          "fun c => let '(cv, m, k, Aub, bub, Aeq, beq, mi, _) := c in linprog_sep cv m k Aub bub Aeq beq mi opts",
+                          cases, chunk=40, preamble=PREAMBLE)
+    ctx.corr["linprog_sep_ok"]["mismatches"] = 0       # not a correspondence: a measured hypothesis
+    ctx.count("lp_sep_ok:true", len(cases) - len(nosep))
+    ctx.count("lp_sep_ok:false", len(nosep))
+    for j in nosep[:3]:
+        ctx.notes.append("sep_ok fails (a compared quantity lies in (0, tol]) on %s" % json.dumps(jsonable(lp_input(lps[j]))))
     # (3) the theorems are stated for tolerance 0: measure how often that run coincides with the source-tolerance run
     bad0 = ctx.coq_check("linprog_simplex_tol0", IMPORTS, "LPQ", "lp_ok opts0", cases, chunk=40, preamble=PREAMBLE)
     only0 = [i for i in bad0 if i not in set(bad)]
@@ -503,6 +513,13 @@ def run(ctx):
                            "fun c => let '(m, n, A, mi, _) := c in Nat.eqb (minmax_inner_status m n A mi) 0", cases, chunk=40, preamble=PREAMBLE)
     ctx.count("minmax_inner_status_nonzero(tol0)", len(bad_st))
     ctx.count("minmax_inner_status_zero(tol0)", len(cases) - len(bad_st))
+    nosep = ctx.coq_check("minmax_sep_ok", IMPORTS, "MMQ", "fun c => let '(m, n, A, mi, _) := c in minmax_sep m n A mi opts",
+                          cases, chunk=40, preamble=PREAMBLE)
+    ctx.corr["minmax_sep_ok"]["mismatches"] = 0
+    ctx.count("minmax_sep_ok:true", len(cases) - len(nosep))
+    ctx.count("minmax_sep_ok:false", len(nosep))
+    for j in nosep:
+        ctx.count("minmax_sep_ok:false:" + meta[j][1])
     bad_t0 = ctx.coq_check("minmax_tol0", IMPORTS, "MMQ", "mm_ok opts0", cases, chunk=40, preamble=PREAMBLE)
     ctx.count("minmax_tol0_run_differs", len([i for i in bad_t0 if i not in set(bad)]))
     for j in badw:
